@@ -3,9 +3,10 @@ SPECIFICATION GSpec
 CONSTANTS
   Order = "code"
   D1Fixed = TRUE
+  HopSafe = TRUE
   CLNormalised = TRUE
   BigBodies = TRUE
-  Families = {"id", "sig"}
+  Families = {"id", "sig", "hop"}
 INVARIANTS RulesHoldG
 ACTION_CONSTRAINT Emit
 CHECK_DEADLOCK FALSE
